@@ -335,8 +335,81 @@ impl Runtime {
     #[verifier::external_body]
     pub fn emitter(&self) -> (r: &Emitter) ensures *r == self.em() { unimplemented!() }
 }
-pub struct Channel { pub runtime: std::sync::Arc<Runtime>, pub chan_id: String }
+#[verifier::external_body]
+pub struct Globs { _p: u8 }
+impl Clone for Globs { #[verifier::external_body] fn clone(&self) -> (r: Self) { unimplemented!() } }
+pub struct Channel { pub runtime: std::sync::Arc<Runtime>, pub chan_id: String, pub ack: bool, pub pattern: String, pub glob: Globs }
+// R9: the handler closure `move |e| { if is_match(..) { store_if(..); f(e); } }` (its body is under contract in U-chan as a lifted function)
+#[verifier::external_body]
+pub fn channel_handler(f: RawFn) -> (r: RawFn) { unimplemented!() }
+#[verifier::external_body]
+pub fn arc_rt_clone(r: &std::sync::Arc<Runtime>) -> (c: std::sync::Arc<Runtime>) ensures c == *r { unimplemented!() }
+#[verifier::external_body]
+pub fn string_clone(s: &String) -> (c: String) ensures c@ == s@ { unimplemented!() }
 pub struct MessageExecutor { pub runtime: std::sync::Arc<Runtime> }
+
+impl Channel {
+//@@ extract file=acts/src/export/channel.rs in="impl Channel" item="fn on_message" name=Channel::on_message
+//@@ rw R20 `f : impl Fn ( & Event < Message > ) + Send + Sync + 'static` => `f: RawFn`
+//@@ rw R7 `self : & Arc < Self >` => `&self`
+//@@ rw R7 `self . runtime . clone ( )` => `arc_rt_clone(&self.runtime)`
+//@@ rw R7 `self . chan_id . clone ( )` => `string_clone(&self.chan_id)`
+//@@ rw R7 `self . pattern . clone ( )` => `string_clone(&self.pattern)`
+//@@ rw R9 `move | e | $B:block` => `channel_handler(f)`
+//@@ spec
+    requires self.runtime.em().wf()
+    ensures
+        //# N4-a-channel-registers-its-handler-under-its-own-id-and-nowhere-else
+        final(em).reg.messages.dom() == old(em).reg.messages.dom().insert(self.chan_id@)
+            && (forall|k: Seq<char>| k != self.chan_id@ && old(em).reg.messages.dom().contains(k) ==> final(em).reg.messages[k] == old(em).reg.messages[k])
+            && *final(em) == (EmAbs { reg: Registry { messages: final(em).reg.messages, ..old(em).reg }, ..*old(em) }),
+//@@ end
+//@@ extract file=acts/src/export/channel.rs in="impl Channel" item="fn on_start" name=Channel::on_start
+//@@ rw R20 `f : impl Fn ( & Event < Message > ) + Send + Sync + 'static` => `f: RawFn`
+//@@ rw R7 `self : & Arc < Self >` => `&self`
+//@@ rw R7 `self . runtime . clone ( )` => `arc_rt_clone(&self.runtime)`
+//@@ rw R7 `self . chan_id . clone ( )` => `string_clone(&self.chan_id)`
+//@@ rw R7 `self . pattern . clone ( )` => `string_clone(&self.pattern)`
+//@@ rw R9 `move | e | $B:block` => `channel_handler(f)`
+//@@ spec
+    requires self.runtime.em().wf()
+    ensures
+        //# N4-a-channel-registers-its-handler-under-its-own-id-and-nowhere-else
+        final(em).reg.starts.dom() == old(em).reg.starts.dom().insert(self.chan_id@)
+            && (forall|k: Seq<char>| k != self.chan_id@ && old(em).reg.starts.dom().contains(k) ==> final(em).reg.starts[k] == old(em).reg.starts[k])
+            && *final(em) == (EmAbs { reg: Registry { starts: final(em).reg.starts, ..old(em).reg }, ..*old(em) }),
+//@@ end
+//@@ extract file=acts/src/export/channel.rs in="impl Channel" item="fn on_complete" name=Channel::on_complete
+//@@ rw R20 `f : impl Fn ( & Event < Message > ) + Send + Sync + 'static` => `f: RawFn`
+//@@ rw R7 `self : & Arc < Self >` => `&self`
+//@@ rw R7 `self . runtime . clone ( )` => `arc_rt_clone(&self.runtime)`
+//@@ rw R7 `self . chan_id . clone ( )` => `string_clone(&self.chan_id)`
+//@@ rw R7 `self . pattern . clone ( )` => `string_clone(&self.pattern)`
+//@@ rw R9 `move | e | $B:block` => `channel_handler(f)`
+//@@ spec
+    requires self.runtime.em().wf()
+    ensures
+        //# N4-a-channel-registers-its-handler-under-its-own-id-and-nowhere-else
+        final(em).reg.completes.dom() == old(em).reg.completes.dom().insert(self.chan_id@)
+            && (forall|k: Seq<char>| k != self.chan_id@ && old(em).reg.completes.dom().contains(k) ==> final(em).reg.completes[k] == old(em).reg.completes[k])
+            && *final(em) == (EmAbs { reg: Registry { completes: final(em).reg.completes, ..old(em).reg }, ..*old(em) }),
+//@@ end
+//@@ extract file=acts/src/export/channel.rs in="impl Channel" item="fn on_error" name=Channel::on_error
+//@@ rw R20 `f : impl Fn ( & Event < Message > ) + Send + Sync + 'static` => `f: RawFn`
+//@@ rw R7 `self : & Arc < Self >` => `&self`
+//@@ rw R7 `self . runtime . clone ( )` => `arc_rt_clone(&self.runtime)`
+//@@ rw R7 `self . chan_id . clone ( )` => `string_clone(&self.chan_id)`
+//@@ rw R7 `self . pattern . clone ( )` => `string_clone(&self.pattern)`
+//@@ rw R9 `move | e | $B:block` => `channel_handler(f)`
+//@@ spec
+    requires self.runtime.em().wf()
+    ensures
+        //# N4-a-channel-registers-its-handler-under-its-own-id-and-nowhere-else
+        final(em).reg.errors.dom() == old(em).reg.errors.dom().insert(self.chan_id@)
+            && (forall|k: Seq<char>| k != self.chan_id@ && old(em).reg.errors.dom().contains(k) ==> final(em).reg.errors[k] == old(em).reg.errors[k])
+            && *final(em) == (EmAbs { reg: Registry { errors: final(em).reg.errors, ..old(em).reg }, ..*old(em) }),
+//@@ end
+}
 impl Channel {
 //@@ extract file=acts/src/export/channel.rs in="impl Channel" item="fn close" name=Channel::close
 //@@ spec
